@@ -93,7 +93,10 @@ func c06Build(shape int, focus string) *c06shape {
 	}
 	// shape 4: own copies, and the PCK-CRL issuer-chain header lists the root before the CA (well-formed, other order)
 	reversedCrlHdr := shape == 4
-	if reversedCrlHdr {
+	// shape 5: own copies, and the trusted pool also pins a long-lived re-issue of the platform CA (same key and
+	// name): the path is validated through the pinned issue, the issue carried in the quote is judged for expiry
+	pinnedInter := shape == 5
+	if reversedCrlHdr || pinnedInter {
 		shape = 2
 	}
 	var poolRoot, chainRoot, tcbRoot, qeRoot, crlRoot, inter, crlInter *x509.Certificate
@@ -173,13 +176,22 @@ func c06Build(shape int, focus string) *c06shape {
 	g.Responses[world.RootCRLURL] = world.Response{Body: world.MakeCRL(world.CRLSpec{Issuer: chainRoot, Signer: pki.RootKey, ThisUpdate: mo(-300), NextUpdate: rootCrlNU})}
 	s.getter = g
 	s.roots = world.Pool(poolRoot)
+	if pinnedInter {
+		pinned := world.MakeCert(world.CertSpec{CN: world.CNPlatform, IsCA: true, Key: pki.InterKey, MaxPathLen: -1, NotBefore: mo(-200), NotAfter: mo(200)}, poolRoot, pki.RootKey)
+		s.roots = world.Pool(poolRoot, pinned)
+		s.name = strings.Replace(s.name, "own-copies", "own-copies+platform-ca-pinned-in-pool", 1)
+	}
 	con := func(name string, field, level int, nb, na time.Time) {
 		s.cons = append(s.cons, c06con{name, field, level, nb, na})
 	}
 	var z time.Time
 	// PCK chain: explicit expiry of the three chain certificates + path validation (leaf, intermediate, trusted root)
 	con("pck leaf", fPck, 0, leaf.NotBefore, leaf.NotAfter)
-	con("pck intermediate", fPck, 0, inter.NotBefore, inter.NotAfter)
+	if pinnedInter {
+		con("pck intermediate carried in the quote (expiry)", fPck, 0, z, inter.NotAfter)
+	} else {
+		con("pck intermediate", fPck, 0, inter.NotBefore, inter.NotAfter)
+	}
 	con("pck chain root (expiry)", fPck, 0, z, chainRoot.NotAfter)
 	con("trusted root (path)", fPck, 0, poolRoot.NotBefore, poolRoot.NotAfter)
 	con("tcbInfo nextUpdate", fTcb, 1, z, tcbNU)
@@ -243,6 +255,9 @@ func runC06(r *mc.Run) {
 	}
 	for _, f := range []string{"", "crlInter", "crlRoot", "nb:crlInter"} {
 		shapes = append(shapes, c06Build(4, f))
+	}
+	for _, f := range []string{"", "inter", "leaf", "chainRoot"} {
+		shapes = append(shapes, c06Build(5, f))
 	}
 	// Intel-like in one more respect: one TCB-signing certificate serves both JSON documents
 	shapes = append(shapes, c06Build(3, ""))
